@@ -755,6 +755,10 @@ def run(tier, procs=None, only=None):
     )
 
 
+# every real-library oracle of this property (each returns (reproduced, detail)); used to confirm structural facts that carry no replay of their own
+ALL_REPLAYS = [lambda c: replay_decode(2, 3)(c), lambda c: replay_decode(2, 1, True)(c), lambda c: replay_fit(2, 2)(c), lambda c: replay_labels(2, 2)(c), lambda c: replay_labels(2, 2, True)(c), lambda c: replay_normalize('single')(c)]
+
+
 def replay(data):
     info = data.get("info") or {}
     det = data.get("replay_detail") or {}
